@@ -25,6 +25,10 @@ Build(d) ==
               <<"prob,unit", "prob,targ01", "prob,unit", "prob,targ01">>,
               <<Ins(d[2], [inst |-> 1, dim |-> 0], <<1, 2>>), Ins(d[2], [inst |-> 1, dim |-> 0], <<3, 4>>), Ins(d[2], [inst |-> 1, dim |-> 0], <<1, 2>>)>>,
               <<5, 6, 7>>, 0, TRUE) @@ [props |-> <<"nonneg", "finite">>]
+       (* between the batch of one size and the batch of the other the same object REJECTS a call whose prediction already has the new size *)
+       @@ (LET ins3 == <<In("p", d[3], TRUE), In("t", d[3], FALSE), In("q", d[4], FALSE), In("u", d[4], FALSE)>>
+               code3 == <<Ins(d[2], [inst |-> 1, dim |-> 0], <<1, 2>>), Ins(d[2], [inst |-> 1, dim |-> 0], <<3, 4>>), Ins(d[2], [inst |-> 1, dim |-> 0], <<1, 2>>)>>
+           IN [rejects |-> <<Rejected(ins3, code3, 2, Ins(d[2], [inst |-> 1, dim |-> 0], <<3, 2>>)), Rejected(ins3, code3, 3, Ins(d[2], [inst |-> 1, dim |-> 0], <<1, 4>>))>>])
   ELSE IF d[1] = "bad"
   THEN MkCase("c12", d[2][1], <<In("p", d[2][2], FALSE), In("t", d[2][3], FALSE)>>, <<"any", "any">>,
               <<Ins(d[2][1], NoPar, <<1, 2>>)>>, <<>>, 0, TRUE)
